@@ -21,6 +21,10 @@ from . import npshim
 SCIPY_DIR = os.environ.get("SYMX_SCIPY_DIR", "/venv/lib/python3.12/site-packages/scipy")
 
 
+# harness switch: take positive definiteness of factorised matrices as an assumption (listed in the evidence)
+TRUST_PD = [False]
+
+
 def cholesky(a, lower=False, overwrite_a=False, check_finite=True):
     a = asarr(a)
     n = a.shape[0]
@@ -32,7 +36,13 @@ def cholesky(a, lower=False, overwrite_a=False, check_finite=True):
         s = A[j][j]
         for k in range(j):
             s = s - L[j][k] * L[j][k]
-        if s.is_special or not bool(s > 0):
+        if TRUST_PD[0] and not s.is_special:
+            r = s > 0
+            if r is False:
+                raise npshim.LinAlgError("%d-th leading minor of the array is not positive definite" % (j + 1))
+            if r is not True:
+                CTX.assume(r.e, check=False)
+        elif s.is_special or not bool(s > 0):
             raise npshim.LinAlgError("%d-th leading minor of the array is not positive definite" % (j + 1))
         d = ssqrt(s)
         L[j][j] = d
@@ -70,7 +80,14 @@ def solve_triangular(a, b, trans=0, lower=False, unit_diagonal=False, overwrite_
                 s = s - A[i][k] * X[k][j]
             d = A[i][i]
             if not unit_diagonal:
-                if not d.is_special and bool(d == 0):
+                if TRUST_PD[0] and not d.is_special:
+                    r = d == 0
+                    if r is True:
+                        raise npshim.LinAlgError("singular matrix: resolution failed at diagonal %d" % i)
+                    if r is not False:
+                        import z3 as _z3
+                        CTX.assume(_z3.Not(r.e), check=False)
+                elif not d.is_special and bool(d == 0):
                     raise npshim.LinAlgError("singular matrix: resolution failed at diagonal %d" % i)
                 s = s / d
             X[i][j] = s
